@@ -30,6 +30,7 @@ type swapController struct {
 	Num  int64
 	Den  int64
 	Seen []string // "amount denom" handed to each invocation
+	calls int
 }
 
 var _ orbitertypes.ActionController = &swapController{}
@@ -66,8 +67,19 @@ func (s *swapController) HandlePacket(ctx context.Context, p *orbitertypes.Actio
 	if err := bank.SendCoins(ctx, pool, world.OrbiterAddr(), sdk.NewCoins(sdk.NewCoin(to, out))); err != nil {
 		return err
 	}
-	ta.SetDestinationAmount(out)
-	ta.SetDestinationDenom(to)
+	// the two setters are independent: controllers may call them in either order, or only the
+	// one whose value changes
+	s.calls++
+	switch {
+	case out.Equal(in) && s.calls%2 == 0:
+		ta.SetDestinationDenom(to)
+	case s.calls%3 == 0:
+		ta.SetDestinationDenom(to)
+		ta.SetDestinationAmount(out)
+	default:
+		ta.SetDestinationAmount(out)
+		ta.SetDestinationDenom(to)
+	}
 	return nil
 }
 
